@@ -38,6 +38,7 @@ def run(ctx):
     c10.binding_levels_rule(ctx, "C07.L12", core, c10.precedence_rows(core))
     from rules import symprint
     symprint.L2_guards(ctx, "C07.L2", core, G, scope_fns=("ast_to_source", "formatter"))
+    symprint.param_markers(ctx, "C07.L13", core, scope_fns=("ast_to_source", "formatter"))
     symprint.shape_rules(ctx, "C07.R7", core, G, scope_fns=("ast_to_source", "formatter"))
     symprint.lambda_head(ctx, "C07.L11", core, G, scope_fns=("ast_to_source", "formatter"))
     # literal numbers are re-emitted exactly (shared with C16.R1 / C05.L10)
